@@ -25,6 +25,7 @@ func runC17(c *Ctx) {
 	ruleErrPassthrough(c)
 	ruleNoSMTPErrorMutation(c)
 	ruleNoReplyAfterClose(c)
+	ruleHelloErrorNotMasked(c)
 	ruleWriteDeadlineOwner(c) // a verdict that takes the backend longer than ReadTimeout is still written
 	// the error reported for a failed chunk is the one the pipe copy returned — the backend's own error comes back that
 	// way (r.CloseWithError) — and "unexpected EOF" stands in only when the copy returned none
@@ -409,4 +410,45 @@ func ruleNoReplyAfterClose(c *Ctx) {
 			[]string{"reply"}, nil, nil)
 	}
 	R.Ob("handlers/direct Close calls found", "-", n >= 8, fmt.Sprintf("%d direct calls of Conn.Close found in Conn's methods", n))
+}
+
+// ruleHelloErrorNotMasked (C17, C10): Extension, SupportsAuth and MaxMessageSize run the hello exchange themselves and
+// report its failure as "not offered". A package function that returns an error and decides by such a query must have
+// run hello() itself before — and returned its error — otherwise the server's reply to EHLO (for a go-smtp server: the
+// backend's SMTPError from session creation) is replaced by a local "server doesn't support X".
+func ruleHelloErrorNotMasked(c *Ctx) {
+	R := c.R
+	R.Rule("R-hello-error-not-masked", "E3 must-facts", "in package functions that return an error, every capability query (Extension/SupportsAuth/MaxMessageSize) is made where hello() is known to have succeeded: a failed EHLO is returned as it is, not as a missing extension", 2)
+	swallow := map[string]bool{"(*Client).Extension": true, "(*Client).SupportsAuth": true, "(*Client).MaxMessageSize": true}
+	helloOK := regexpCache(`^\(\*Client\)\.hello\(.*\) == nil$`)
+	n := 0
+	for _, f := range c.P.AllFuncs() {
+		if !inSmtp(f) || f.Signature.Results().Len() == 0 {
+			continue
+		}
+		last := f.Signature.Results().At(f.Signature.Results().Len() - 1).Type()
+		if last.String() != "error" {
+			continue
+		}
+		ff := c.F.Analyze(f)
+		allInstrs(f, func(in ssa.Instruction) {
+			cc := callCommon(in)
+			if cc == nil {
+				return
+			}
+			g := staticCallee(cc)
+			if g == nil || !swallow[funcName(g)] {
+				return
+			}
+			n++
+			ok := false
+			for a := range ff.At(in) {
+				if helloOK.MatchString(a) {
+					ok = true
+				}
+			}
+			R.Ob(c.siteKey(in, "capability query only after a checked hello()"), c.P.InstrPos(in), ok, fmt.Sprintf("%s asks %s without having run hello() and returned its error: when the EHLO is refused the caller gets \"not supported\" instead of the server's SMTPError (facts here: %v)", funcName(f), funcName(g), ff.At(in).list()))
+		})
+	}
+	R.Ob("package/capability queries in error-returning functions", "-", n >= 2, fmt.Sprintf("%d found", n))
 }
